@@ -24,6 +24,7 @@ type plan struct {
 }
 
 func main() {
+	dirk := flag.String("dirk", "", "path of a dirk binary: serve the calls from the real program (its own configuration reading and wiring) instead of the in-process service")
 	in := flag.String("scenarios", "", "JSON plan")
 	out := flag.String("out", "", "NDJSON output file")
 	flag.Parse()
@@ -45,7 +46,12 @@ func main() {
 	log := world.NewLog(w)
 	ctx := context.Background()
 	world.Quiet()
-	srv, err := world.StartAPIServerMode(ctx, world.NewLog(nil), p.ServerMode)
+	var srv *world.APIServer
+	if *dirk != "" {
+		srv, err = world.StartExternalDirk(ctx, world.NewLog(nil), p.ServerMode, *dirk)
+	} else {
+		srv, err = world.StartAPIServerMode(ctx, world.NewLog(nil), p.ServerMode)
+	}
 	if err != nil {
 		fmt.Fprintln(os.Stderr, "server:", err)
 		os.Exit(2)
